@@ -42,6 +42,18 @@ def real(e, name, lo=None, hi=None, lo_strict=False, nonzero=False):
     return SFloat(v)
 
 
+def real0d(e, name, nonzero=False):
+    """symbolic real as a 0-d array (use where the code multiplies the scalar by a python complex constant: a float
+    subclass would be consumed natively by complex.__mul__)"""
+    c = _conc(e, name)
+    if c is not None:
+        return float(c)
+    v = z3.Real(name)
+    if nonzero:
+        e.assume(v != 0)
+    return SArr((), lambda i: v, "real", name=name)
+
+
 def pos_real(e, name):
     return real(e, name, lo=0, lo_strict=True)
 
